@@ -46,6 +46,9 @@ func genCandidate(r vlib.Rnd) *vlib.Project {
 		case 2:
 			return vlib.SingleFile(genOrFamily(r))
 		}
+		if vlib.Chance(r, 1, 3) {
+			return vlib.SingleFile(genRPCFamily(r))
+		}
 		return vlib.SingleFile(genTagSoup(r))
 	case 6:
 		// a synthetic seed as it is or lightly mutated (shapes the repo's fixtures do not contain)
@@ -209,6 +212,40 @@ func genAllOfFamily(r vlib.Rnd) []byte {
 	fmt.Fprintf(&sb, "POST /a/{id}\n  Request @t%d\n  200 @t%d\n  404 [@t%d]\n", r.Intn(n), n-1, r.Intn(n))
 	if vlib.Chance(r, 1, 3) {
 		fmt.Fprintf(&sb, "  Path\n    { // {allOf: \"@t%d\"}\n      \"id\": 1\n    }\n", r.Intn(n))
+	}
+	return []byte(sb.String())
+}
+
+// genRPCFamily: JSON-RPC URLs and HTTP methods whose (quoted) paths and method names are drawn from a few words and may
+// contain blanks: the catalog identifies an interaction by the text "<protocol> <method> <path>".
+func genRPCFamily(r vlib.Rnd) []byte {
+	var sb strings.Builder
+	sb.WriteString("JSIGHT 0.3\n\n")
+	paths := []string{"/c", "/b /c", "/a /b /c", "/b", "/a", "/c d"}
+	names := []string{"a", "a /b", "a /a", "x", "a /a /b", "x y"}
+	used := map[string]bool{}
+	n := 2 + r.Intn(3)
+	for i := 0; i < n; i++ {
+		p := vlib.Pick(r, paths)
+		if used[p] {
+			continue
+		}
+		used[p] = true
+		if vlib.Chance(r, 1, 4) {
+			fmt.Fprintf(&sb, "%s \"%s\"\n  200 any\n\n", vlib.Pick(r, []string{"GET", "POST"}), p)
+			continue
+		}
+		fmt.Fprintf(&sb, "URL \"%s\"\n  Protocol json-rpc-2.0\n", p)
+		um := map[string]bool{}
+		for k := 0; k < 1+r.Intn(2); k++ {
+			m := vlib.Pick(r, names)
+			if um[m] {
+				continue
+			}
+			um[m] = true
+			fmt.Fprintf(&sb, "  Method \"%s\"\n    Params\n      {}\n", m)
+		}
+		sb.WriteString("\n")
 	}
 	return []byte(sb.String())
 }
@@ -397,7 +434,22 @@ func c05Oracle(c *vlib.Case) *vlib.Violation {
 		return nil // C04's business
 	}
 	doc, err := vlib.ParseOrdered(js)
-	if err != nil || vlib.JDocShape(doc) != nil {
+	if err != nil {
+		return nil // C04's business
+	}
+	// names are unique: no section lists a name twice
+	for _, sec := range []string{"interactions", "tags", "userTypes", "userEnums", "servers"} {
+		if s := doc.Get(sec); s != nil && s.IsObj() {
+			seen := map[string]bool{}
+			for _, k := range s.Keys {
+				if seen[k] {
+					return vlib.V("c05:refs:duplicate-name:"+sec, "section %s has two entries named %q", sec, k)
+				}
+				seen[k] = true
+			}
+		}
+	}
+	if vlib.JDocShape(doc) != nil {
 		return nil // C04's business
 	}
 	return vlib.JDocRefs(doc)
